@@ -624,7 +624,13 @@ impl Open for VirtualSystem {
         flags: EnumSet<OpenFlag>,
         mode: Mode,
     ) -> impl Future<Output = Result<Fd>> + use<> {
-        let resolution = self.resolve_file(path, access, flags, mode);
+        // Like a real kernel, fail before creating or truncating a file if the
+        // process cannot be given another file descriptor.
+        let resolution = if self.current_process().can_open_fd() {
+            self.resolve_file(path, access, flags, mode)
+        } else {
+            Err(Errno::EMFILE)
+        };
         let system = self.clone();
 
         async move {
